@@ -356,6 +356,10 @@ class Builder:
     def b_Comment(self, t):
         return pt.Comment(t[1], self.b(t[2]))
 
+    def b_CommentS(self, t):
+        # a Comment used as a statement of its own
+        return pt.Comment(t[1])
+
     def b_Pragma(self, t):
         return pt.Pragma(self.b(t[1]), compiler_version=">=0.1.0")
 
